@@ -170,12 +170,26 @@ CLAIMED.update({
         "go/types + go/ssa of x/tools v0.29.0; real arithmetic; sqrt/abs/min/max with their algebraic laws only; published forms transcribed in checker/props/c19/refs.go.",
         "DESIGN.md 4 C19, 5; checker/props/c19/REPORT.md",
     ),
+    "C20": (
+        "one symbolic run of the triangulation pipeline on go/ssa (roles of the working map, point list, inserted point, collected list, polygon and enclosing vertices discovered from its events), polynomial identities for the in-circle and orientation determinants (C17 engine), truth tables over the finite id orderings for the hole boundary and the enclosing-vertex removal, interval certificate with concrete witness for the enclosing triangle",
+        "Decides structural necessary conditions, not the Delaunay property itself (empty circumcircles / non-overlap for every input depend on run-time geometry): a triangle is collected exactly when orient x incircleDet > 0 as a polynomial identity in the eight coordinates (DEL-INCIRCLE); every triangle stored while filling a hole has one fixed sign of the 2x2 orientation determinant (DEL-ORIENT); "
+        "an edge reaches the hole polygon exactly when no other collected triangle has it in either direction, every collected triangle is deleted, one triangle is stored per polygon edge (DEL-HOLE, 144 id orderings); the starting triangle is the appended enclosing vertices, strictly contains the input's bounding box for every positive size, and a triangle is deleted at the end exactly when one of its ids is >= len(input) (DEL-SUPER); "
+        "every input id is inserted and point i of the working list is input point i (DEL-INSERT); Position[i] = (S[i].x, 0, S[i].y) for the final version S of the list the ids refer to, and the index array holds the three ids of every triangle (DEL-VERT); the bounding box reads both coordinates of every point (DEL-DEP). "
+        "Not covered: the geometric outcome itself, floating-point robustness, the constraint-edge part of ConstrainedBowyerWatson beyond DEL-VERT.",
+        "go/types + go/ssa of x/tools v0.29.0; real arithmetic; name anchors BowyerWatson / ConstrainedBowyerWatson only.",
+        "DESIGN.md 4 C20, 5; checker/props/c20/REPORT.md",
+    ),
+    "C18": (
+        "constant-table evaluation from the type-checked source (edge pairing of the welded cube's index table), signed-volume polynomial identity and normal/face-normal dot products with symbolic width/height/depth (C17 polynomial engine)",
+        "Decides the property completely for ONE of the solids and nothing for the others: the welded cube (Cube.Welded) - every directed edge of its constant index table occurs exactly once with its reverse exactly once (closed, consistently oriented: CUBE-CLOSED), the signed volume sum of p0.(p1 x p2) equals 6 W H D as a polynomial identity (outward-facing, right volume: CUBE-VOLUME), supplied normals have a positive dot product with every incident face normal (CUBE-NORMAL). "
+        "NOT decided (stated limit, see DESIGN.md 5): closure / winding / volume of the UV sphere, hemisphere, capped cylinder and the cube of separate quads, which are index patterns over all row/column/side counts (needs an inductive edge-pairing proof) or go through trigonometric rotations. C02's GEN-BOUND / GEN-LEN / GEN-3 cover their index ranges and array lengths only.",
+        "go/types + go/ssa of x/tools v0.29.0; real arithmetic.",
+        "DESIGN.md 5; checker/props/c18/REPORT.md",
+    ),
 })
 
 NOT_YET = "check not built yet in this round (design in DESIGN.md section 4); not claimed until its rules run clean on the tree"
 NOT_APPLICABLE = {
-    "C18": "closure/winding/volume of generated index patterns needs a symbolic edge-pairing proof over all row/column/side counts plus numeric volume; no sound static rule in reach (DESIGN.md §5)",
-    "C20": "empty-circumcircle / non-overlap / winding depend on run-time geometry of the insertion history; no structural necessary condition beyond the trivial one (DESIGN.md §5)",
 }
 
 ALL = ["C%02d" % i for i in range(1, 21)]
